@@ -319,6 +319,49 @@ pub fn run(ctx: &mut Ctx) {
             ctx.check("path:escape-before:missing", &json!({"missing": [pth]}), &data);
         }
     }
+    // numeric-looking segments padded with zeros to every length class (an index is an index however it is
+    // spelled as long as it parses; an object key is only its exact text), signs included
+    for pad in [1usize, 2, 17, 18, 19, 20, 21, 25, 40] {
+        if !ctx.mine() {
+            continue;
+        }
+        for (sign, idx) in [("", 1i64), ("-", 1), ("+", 1), ("", 0), ("-", 0), ("", 2)] {
+            let seg = format!("{}{}{}", sign, "0".repeat(pad), idx);
+            for data in [json!({"l": ["x", "y", "z"], "s": "héllo", "o": {seg.clone(): "exact", idx.to_string(): "canonical"}}), json!(["p", "q"]), json!("añb")] {
+                ctx.edge();
+                for pth in [format!("l.{}", seg), format!("s.{}", seg), format!("o.{}", seg), seg.clone()] {
+                    ctx.check("path:zero-padded-index", &var(json!(pth)), &data);
+                    ctx.check("path:zero-padded-index:default", &var(json!([pth, "dflt"])), &data);
+                    ctx.check("path:zero-padded-index:missing", &json!({"missing": [pth]}), &data);
+                }
+            }
+        }
+    }
+    // capacity probes: n distinct dotted paths in one rule, then the first ones again (whatever is remembered
+    // per path must still be right after any number of other paths)
+    for n in al::size_classes(ctx.tier_thorough) {
+        if !ctx.mine() {
+            continue;
+        }
+        let mut m = serde_json::Map::new();
+        for i in 0..n {
+            m.insert(format!("k{}", i), json!({"v": i, "w": [i]}));
+        }
+        let data = Value::Object(m);
+        let mut lookups: Vec<Value> = (0..n).map(|i| json!({"var": format!("k{}.v", i)})).collect();
+        lookups.extend((0..n.min(4)).map(|i| json!({"var": format!("k{}.v", i)})));
+        lookups.extend((0..n.min(4)).map(|i| json!({"var": format!("k{}.w.0", n - 1 - i)})));
+        ctx.edge();
+        ctx.check("capacity:dotted-paths:merge", &json!({"merge": lookups}), &data);
+        ctx.check("capacity:dotted-paths:cat", &json!({"cat": lookups}), &data);
+        let keys: Vec<Value> = (0..n).map(|i| json!(format!("k{}.v", i))).chain((0..n.min(4)).map(|i| json!(format!("k{}.zz", i)))).chain((0..n.min(4)).map(|i| json!(format!("k{}.v", i)))).collect();
+        ctx.check("capacity:dotted-paths:missing", &json!({"missing": keys}), &data);
+        // the same spread over the elements of a map (one lookup per element, each a different path)
+        let rows: Vec<Value> = (0..n).map(|i| json!({format!("a{}", i): {"b": i}})).collect();
+        let body = json!({"var": [{"cat": ["a", {"var": "i"}, ".b"]}]});
+        let rows2: Vec<Value> = rows.iter().enumerate().map(|(i, r)| { let mut r = r.clone(); r["i"] = json!(i); r }).collect();
+        ctx.check("capacity:dotted-paths:map-computed-key", &json!({"map": [{"var": "rows"}, body]}), &json!({"rows": rows2}));
+    }
     // (b) key operand kinds
     let mut ints: Vec<Value> = al::ints_small().into_iter().map(|i| json!(i)).collect();
     ints.extend(al::ints_extreme());
